@@ -175,7 +175,7 @@ Definition say (o : out) (s : state) : R := (s, [o]).
 (* ------------------------------------------------------------------ history variables (never read by the code above/below) *)
 Definition ghost0 : ghost :=
   mkGhost false [] false false false false false false false false false false false false false false false false false
-          false false false O O.
+          false false false O O false false None false.
 Definition upg (f : ghost -> ghost) (s : state) : state := set_gh (f (gh s)) s.
 Definition is_strong (cert : bool) (m : mech) : bool :=
   match m with MScram _ | MDigest => true | MExternal => cert | _ => false end.
@@ -198,12 +198,20 @@ Definition note_rx (e : elem) (s : state) : state :=
             end in
   let g4 := if ns_eqb (e_ns e) NsSm && ename_eqb (e_name e) NmResumed then set_g_resumed true g3 else g3 in
   let g5 := if ename_eqb (e_name e) NmHandshake then set_g_hs_ok true g4 else g4 in
-  set_gh g5 s.
+  let g6 := if ns_eqb (e_ns e) NsStreams && ename_eqb (e_name e) NmError then set_g_serr (Some (e_cond e, e_text e)) g5 else g5 in
+  set_gh g6 s.
+Definition se_eqb (a b : option (Z * bool)) : bool :=
+  match a, b with
+  | None, None => true
+  | Some (c, t), Some (c', t') => (c =? c') && Bool.eqb t t'
+  | _, _ => false
+  end.
 Definition note_out (g : ghost) (o : out) : ghost :=
   match o with
   | OConnect => set_g_connects (S (g_connects g)) g
   | ODisconnect _ _ => set_g_disconnects (S (g_disconnects g)) g
   | OTlsStart true => set_g_tls_up true g
+  | ORawConnect => set_g_rawc true g
   | _ => g
   end.
 Definition note_outs (outs : list out) (s : state) : state := set_gh (fold_left note_out outs (gh s)) s.
@@ -276,7 +284,9 @@ Definition conn_disconnect (s : state) : R :=
       let o1 := if tls_present s1 then [OTlsStop] else [] in
       let s2 := set_tls_present false s1 in
       let s3 := reset_sm_for_reconnect s2 in
-      (s3, o1 ++ [OSockClose; ODisconnect (err s3) (stream_error s3)])
+      (* observer: the stream error reported is the last one received on this connection *)
+      let s4 := if is_raw s3 || se_eqb (stream_error s3) (g_serr (gh s3)) then s3 else upg (set_g_se_bad true) s3 in
+      (s4, o1 ++ [OSockClose; ODisconnect (err s4) (stream_error s4)])
   end.
 
 (* xmpp_disconnect *)
@@ -300,10 +310,20 @@ Definition conn_tls_start (s : state) : state * emit * bool :=
     let v := match tls_verdicts s with b :: _ => b | [] => true end in
     let s1 := set_tls_verdicts (tl (tls_verdicts s)) s in
     if v then (set_tls_present true (set_secured true s1), [OTlsStart true], true)
-    else (set_tls_failed true (set_err EPROTO s1), [OTlsStart false], false).
+    else (set_tls_present false (set_tls_failed true (set_err EPROTO s1)), [OTlsStart false], false).
+
+(* what an observer must have seen for "connected" to be a legitimate report (C03) *)
+Definition connect_justified (s : state) : bool :=
+  let g := gh s in
+  if is_raw s then g_raw_open g
+  else match typ s with
+       | TClient => (g_auth_ok g && (g_bound g || g_resumed g)) || g_legacy_ok g
+       | TComponent => g_hs_ok g
+       end.
 
 Definition stream_negotiation_success (s : state) : R :=
-  (set_neg_done true s, [OConnect]).
+  let s1 := if connect_justified s then s else upg (set_g_conn_unjust true) s in
+  (set_neg_done true s1, [OConnect]).
 
 (* _do_bind(conn, bind): bind == NULL is dereferenced when a resource is requested or when added to the iq *)
 Definition do_bind (now : Z) (have_bind : bool) (s : state) : R :=
@@ -330,7 +350,7 @@ Fixpoint auth (fuel : nat) (now : Z) (s : state) : R :=
   if tls_support s then
     if negb (tlsnew_ok s) then
       match fuel with
-      | O => ret s
+      | O => (set_crashed true s, [OCrash])   (* out of fuel: would be unbounded recursion *)
       | S f => auth f now (set_tls_support false s)
       end
     else
@@ -869,13 +889,20 @@ Definition step0 (s : state) (o : op) : R :=
   if crashed s then ret s else
   match o with
   | OpSetFlags w => let '(s1, rc) := set_flags w s in (s1, [OFlags rc (flags_readback s1)])
-  | OpSetJid n r => ret (set_jid_res r (set_jid_node n (set_jid_set true s)))
-  | OpSetPass b => ret (set_pass_set b s)
-  | OpSetCert b => ret (set_cert_set b s)
+  (* the user program configures the object (and the environment script is set) while it is disconnected *)
+  | OpSetJid n r => match st s with Disconnected => ret (set_jid_res r (set_jid_node n (set_jid_set true s))) | _ => ret s end
+  | OpSetPass b => match st s with Disconnected => ret (set_pass_set b s) | _ => ret s end
+  | OpSetCert b => match st s with Disconnected => ret (set_cert_set b s) | _ => ret s end
   | OpUserHandlers now h t =>
-      let s1 := if h then h_add HUser s else s in
-      ret (set_user_timed t (set_user_handler h (match t with Some _ => timed_add TUser now s1 | None => s1 end)))
-  | OpEnv tn cb v => ret (set_tls_verdicts v (set_cb_avail cb (set_tlsnew_ok tn s)))
+      match st s with
+      | Disconnected =>
+          let s1 := if h then h_add HUser s else s in
+          ret (set_user_timed t (set_user_handler h (match t with Some _ => timed_add TUser now s1 | None => s1 end)))
+      | _ => ret s
+      end
+  | OpEnv tn cb v => match st s with Disconnected => ret (set_tls_verdicts v (set_cb_avail cb (set_tlsnew_ok tn s))) | _ => ret s end
+  (* environment: the candidates the next sock_new() will find (xmpp_connect_*() rebuilds the list even when it
+     then refuses to connect because the object is not disconnected) *)
   | OpCands eps => ret (set_cands eps s)
   | OpConnectClient now => let '(s1, o, rc) := connect_client now s in (s1, o ++ [ORet rc])
   | OpConnectRaw now => let '(s1, o, rc) := connect_client now (set_is_raw true s) in (s1, o ++ [ORet rc])
